@@ -166,7 +166,27 @@ pub fn gen_raw_spec(rng: &mut Rng, used: &[u16]) -> AttrSpec {
             2 => 760 + rng.usize(4),
             _ => crate::gen::msg::gen_value_len(rng).min(763),
         };
-        return AttrSpec::Raw(t, rng.bytes(n));
+        let mut v = rng.bytes(n);
+        // one value in six carries bytes that look like STUN structure, aligned as the real thing
+        // would be, at its very end (the last 0..3 bytes left to the padding) or at its start: a
+        // FINGERPRINT / MESSAGE-INTEGRITY(-SHA256) attribute, a whole header
+        if rng.chance(1, 6) {
+            let like: Vec<u8> = match rng.below(5) {
+                0 | 1 => [&[0x80u8, 0x28, 0x00, 0x04][..], &rng.bytes(4)].concat(),
+                2 => [&[0x00u8, 0x08, 0x00, 0x14][..], &rng.bytes(20)].concat(),
+                3 => [&[0x00u8, 0x1c, 0x00, 0x20][..], &rng.bytes(32)].concat(),
+                _ => [&[0x00u8, 0x01, 0x00, 0x00, 0x21, 0x12, 0xa4, 0x42][..], &rng.bytes(12)].concat(),
+            };
+            let keep = like.len() - rng.usize(4);
+            let front = (n.min(700) / 4) * 4;
+            if rng.chance(3, 4) {
+                v.truncate(front);
+                v.extend_from_slice(&like[..keep]);
+            } else {
+                v = [&like[..], &v[..front.min(v.len())]].concat();
+            }
+        }
+        return AttrSpec::Raw(t, v);
     }
 }
 
